@@ -349,7 +349,51 @@ func ruleSetOnAppend(c *Ctx) {
 					okk = true
 				}
 			}
-			c.check(okk, funcName(fn.Obj)+"→aofbuf-append", g.Pos(), "aofdirty.Store(true) dominates the append", "Server.aofbuf grows without the dirty flag being set on every path: the pre-write test would skip the flush")
+			how := "aofdirty.Store(true) dominates the append"
+			if !okk {
+				// a helper that only encodes (appendAOFBuf): the flag is set by every caller before the call
+				sites, all := 0, true
+				for _, caller := range c.AllFuncs("internal/server") {
+					if caller.Decl.Body == nil || caller.Obj == fn.Obj {
+						continue
+					}
+					cinfo := caller.Info()
+					var cfgc *FlowGraph
+					inspectNoLit(caller.Decl.Body, func(x ast.Node) bool {
+						call, ok := x.(*ast.CallExpr)
+						if !ok || callee(cinfo, call) != fn.Obj {
+							return true
+						}
+						sites++
+						if cfgc == nil {
+							cfgc = newFlowGraph(cinfo, caller.Decl.Body)
+						}
+						cl := cfgc.LocOfOuter(call)
+						dom := false
+						for _, st := range cfgc.Find(func(y ast.Node) bool {
+							sc, ok := y.(*ast.CallExpr)
+							if !ok || len(sc.Args) != 1 {
+								return false
+							}
+							se, ok := ast.Unparen(sc.Fun).(*ast.SelectorExpr)
+							return ok && se.Sel.Name == "Store" && selField(cinfo, se.X) == dirty && boolConst(cinfo, sc.Args[0]) == '1'
+						}) {
+							if cl.Valid() && cfgc.Dominates(st, cl) {
+								dom = true
+							}
+						}
+						if !dom {
+							all = false
+						}
+						return true
+					})
+				}
+				if sites > 0 && all {
+					okk = true
+					how = "aofdirty.Store(true) dominates every call of this helper"
+				}
+			}
+			c.check(okk, funcName(fn.Obj)+"→aofbuf-append", g.Pos(), how, "Server.aofbuf grows without the dirty flag being set on every path: the pre-write test would skip the flush")
 		}
 	}
 	if n == 0 {
